@@ -30,6 +30,7 @@ def expectedConstants : List (String × Nat) := [
 theorem constants_match : Gen.constants = expectedConstants := rfl
 
 def expectedSkeleton : List (String × List String) := [
+  ("Run.loopOrder", ["abort-poll", "getop", "lookup", "nil->invalid-opcode", "stack-validation", "read-only", "cost=constantGas", "use-constant-gas", "memory-size", "dynamic-gas", "resize", "execute", "set-return-data", "err/reverts/halts/pc++"]),
   ("Run.readOnlyCheck", ["if $in.readOnly", "if operation.writes || (op == CALL && stack.Back(2).Sign() != 0)", "return nil, nil, ErrWriteProtection"]),
   ("Run.readOnlyEntry", ["if $ro && !$in.readOnly", "$in.readOnly = true", "defer $in.readOnly = false"]),
   ("authCallGas", []),
@@ -83,6 +84,10 @@ def expectedSkeleton : List (String × List String) := [
     model renders by passing `ro` down functionally: the interpreter-wide flag is set only if
     not already set (`$ro && !$in.readOnly`) and reset only by the frame that set it (the
     deferred `$in.readOnly = false` inside that `if`), and the per-iteration write test.
+    `Run.loopOrder`: the order of the checks in the loop is the order `stepPre` transcribes —
+    table lookup, nil → invalid opcode, **stack validation, then the read-only test** (which reads
+    `stack.Back(2)` and is only safe after the validation), constant gas, memory size, dynamic
+    gas, resize, execute, return data, err/reverts/halts/pc++.
     `pkgstate.writes` / `pkgstate.pools`: the only package-level variables of `src/vm` any function
     assigns are the logger (`InitVM`) and the precompile address list (`init`); the only shared
     mutable objects on the execution path are the two `sync.Pool`s of stacks (a new package-level
